@@ -98,4 +98,37 @@ PROPS = {
         "components_stub": ["ProbeControl: a recording ClassicalControl subclass supplied through the public cmeasure_control argument"],
         "assumptions": _TRUST + ["no oracle assumes a draw -> outcome mapping: scripts only steer, outcomes are read from the API"],
     },
+    "C01": {
+        "world": "dsim.worlds.device.GateSemanticsWorld",
+        "tiers": {"quick": {"runs": 640, "chunk": 4, "run_cap_s": 200, "wall_cap_s": 600},
+                  "thorough": {"runs": 16000, "chunk": 8, "run_cap_s": 400, "wall_cap_s": 2700}},
+        "rule": "one evaluation = one simulated run: 6-30 calls on four long-lived backend objects (cirq exact, cirq with shots, sympy, "
+                "shot-only stub): exact simulation of random circuits over the full gate set (multi-controlled parameterised gates, idle "
+                "qubits, user initial states in the advertised order) compared with the reference simulator incl. statevector index order; "
+                "sampled simulation with every draw from the RNG seam (frequencies multiples of 1/n_shots, support, point-mass circuits "
+                "exactly, 6.5 sigma otherwise, extreme draw vectors); n_shots mutated between calls; earlier calls repeated later with the "
+                "same seed must return the same result. Distinct = (mode, backend, width, size class, initial state?, bias) tuples; "
+                "non-trivial = run with >=3 calls on >=2 backends or >=1 biased draw.",
+        "probes": ["C01.point_mass_sampled", "C01.same_call_repeated_after_other_calls"],
+        "components_real": ["Backend.simulate, CirqSimulator, SympySimulator, translate_c_to_cirq / _sympy, _statevector_to_frequencies + scipy rv_discrete, cirq, sympy"],
+        "components_stub": ["ShotOnlyDevice(Backend): reference simulator + multinomial draw from the seam; nothing is concluded about a real device"],
+        "assumptions": _TRUST,
+    },
+    "C02": {
+        "world": "dsim.worlds.device.ExpectationWorld",
+        "tiers": {"quick": {"runs": 640, "chunk": 4, "run_cap_s": 200, "wall_cap_s": 600},
+                  "thorough": {"runs": 16000, "chunk": 8, "run_cap_s": 400, "wall_cap_s": 2700}},
+        "rule": "one evaluation = one simulated run: 5-24 calls of get_expectation_value / get_variance / get_standard_error on four "
+                "long-lived backends (cirq exact, cirq shots, sympy, shot-only stub) for random operators (identity, complex "
+                "coefficients) and preparation circuits (initial statevectors, MEASURE gates with / without desired outcome); exact "
+                "routes compared with dense Tr(rho H); finite shots: every internal simulate call recorded on the instance and the "
+                "estimate / variance / standard error recounted exactly from the recorded histograms, plus seeded 6.5 sigma closeness "
+                "to the exact value; documented refusals provoked. Distinct = (quantity, backend, width, complex?, mixed?, desired?, "
+                "initial state?, #terms) tuples; non-trivial = run with >=3 calls on >=2 backends or >=1 refusal.",
+        "probes": ["C02.exact_recount_from_recorded_histograms"],
+        "components_real": ["Backend.get_expectation_value / get_variance / get_standard_error and the private routes behind them, "
+                            "measurement_basis_gates, translate_operator, CirqSimulator.expectation_value_from_prepared_state, SympySimulator"],
+        "components_stub": ["ShotOnlyDevice(Backend) (frequency route with statevector_available=False)"],
+        "assumptions": _TRUST + ["dsim/ref/opmodel.py dense Pauli operators are correct"],
+    },
 }
